@@ -260,8 +260,9 @@ def main(argv):
             print("HARNESS-ERROR %s: %s" % (job_id(r["_job"]), (r.get("detail") or "")[:1500]))
             if r.get("tb"):
                 print(r["tb"][-1500:])
-        return 2
     if violations:
+        # a counterexample that reproduced natively against the real code stands on its own,
+        # whatever went wrong in other jobs
         seen = set()
         for r, path in violations:
             sigs = ",".join(s[0] for s in (r["cex"].get("sigs") or []))
@@ -270,6 +271,8 @@ def main(argv):
                 print("VIOLATION property=%s replay=%s" % (prop, path))
                 seen.add(path)
         return 1
+    if errors:
+        return 2
     for r in inconc:
         print("INCONCLUSIVE %s: explored %s paths without a violation, path tree not exhausted (%s)" % (job_id(r["_job"]), r.get("paths"), (r.get("detail") or "timeout")))
     return 0
